@@ -305,6 +305,18 @@ class Opaque:
         return f"Opaque({self.why})"
 
 
+class RecSlot:
+    """An unset message-typed field of a protobuf record (reading it auto-vivifies in protobuf): only CopyFrom / plain
+    stores through it are modelled."""
+    __slots__ = ("owner", "field")
+
+    def __init__(self, owner, field):
+        self.owner, self.field = owner, field
+
+    def __repr__(self):
+        return f"RecSlot({self.field})"
+
+
 class BoundMethod:
     __slots__ = ("func", "self_")
 
